@@ -23,8 +23,8 @@ func init() { register("C07", c07) }
 // c07Prog: caller op script + handler program.  Ops: S send, R receive, C half-close.
 type c07Prog struct {
 	name, kind, ops string
-	handler     func(m int) func(*env.Rec, grpc.ServerStream) error
-	events      int // wire events of the fault-free run
+	handler         func(m int) func(*env.Rec, grpc.ServerStream) error
+	events          int // wire events of the fault-free run
 }
 
 func hBurstThenBlock(m int) func(*env.Rec, grpc.ServerStream) error {
@@ -44,8 +44,9 @@ func hBurstThenBlock(m int) func(*env.Rec, grpc.ServerStream) error {
 // hMdSendUntilErr: sets response metadata, sends n messages, gives up at the first failing send.
 func hMdSendUntilErr(n int) func(*env.Rec, grpc.ServerStream) error {
 	return func(r *env.Rec, ss grpc.ServerStream) error {
-		ss.SetHeader(metadata.MD{"resp-md": {"v"}})
-		ss.SetTrailer(metadata.MD{"resp-trailer": {"t"}})
+		// (a binary entry spelled in mixed case, as an MD literal allows, with a value that is not itself base64)
+		ss.SetHeader(metadata.MD{"resp-md": {"v"}, "Blob-Bin": {"\x00\xffnot base64!"}})
+		ss.SetTrailer(metadata.MD{"resp-trailer": {"t"}, "T-BIN": {"\xfe!"}})
 		if _, err := recvOne(r, ss); err != nil && err != io.EOF {
 			return err
 		}
